@@ -211,22 +211,10 @@ type countingLoop struct {
 func countingLoops(p *Program, fn *ssa.Function) []countingLoop {
 	var out []countingLoop
 	tc := newTermCtx(p)
-	for _, comp := range loopSCCs(fn) {
-		in := map[*ssa.BasicBlock]bool{}
-		for _, b := range comp {
-			in[b] = true
-		}
-		for _, h := range comp {
-			// header: has a predecessor outside the loop
-			outside := false
-			for _, pr := range h.Preds {
-				if !in[pr] {
-					outside = true
-				}
-			}
-			if !outside {
-				continue
-			}
+	for _, nl := range naturalLoops(fn) {
+		in := nl.body
+		{
+			h := nl.header
 			iff, ok := h.Instrs[len(h.Instrs)-1].(*ssa.If)
 			if !ok {
 				continue
@@ -394,4 +382,43 @@ func isWholeArrayRange(first, last *Linear) bool {
 		}
 	}
 	return false
+}
+
+type natLoop struct {
+	header *ssa.BasicBlock
+	body   map[*ssa.BasicBlock]bool
+}
+
+// naturalLoops: one loop per header that is the target of a back edge (an edge t→h with h dominating t).
+func naturalLoops(fn *ssa.Function) []natLoop {
+	loops := map[*ssa.BasicBlock]*natLoop{}
+	var order []*ssa.BasicBlock
+	for _, t := range fn.Blocks {
+		for _, h := range t.Succs {
+			if !h.Dominates(t) {
+				continue
+			}
+			l := loops[h]
+			if l == nil {
+				l = &natLoop{header: h, body: map[*ssa.BasicBlock]bool{h: true}}
+				loops[h] = l
+				order = append(order, h)
+			}
+			stack := []*ssa.BasicBlock{t}
+			for len(stack) > 0 {
+				x := stack[len(stack)-1]
+				stack = stack[:len(stack)-1]
+				if l.body[x] {
+					continue
+				}
+				l.body[x] = true
+				stack = append(stack, x.Preds...)
+			}
+		}
+	}
+	var out []natLoop
+	for _, h := range order {
+		out = append(out, *loops[h])
+	}
+	return out
 }
